@@ -239,3 +239,11 @@ UNIT = Unit(
                      "final(f).text() == old(f).text() + (if d > 0 { dec(d) + seq!['d', ' '] } else { Seq::<char>::empty() }) + pad2(h) + seq![':'] + pad2(m) + seq![':'] + pad2(s) })")]),
     ],
 )
+
+# outside the verifier's reach (float division + rounding over a const table; number_prefix): pinned by hash,
+# decided only by the bounded routines human_duration / human_bytes when they change (and in the thorough tier)
+UNIT.pinned = [("src/format.rs", "fmt::Display for HumanDuration", "fmt"), ("src/format.rs", "const", "UNITS"),
+               ("src/format.rs", "const", "SECOND"), ("src/format.rs", "const", "MINUTE"), ("src/format.rs", "const", "HOUR"),
+               ("src/format.rs", "const", "DAY"), ("src/format.rs", "const", "WEEK"), ("src/format.rs", "const", "YEAR"),
+               ("src/format.rs", "fmt::Display for HumanBytes", "fmt"), ("src/format.rs", "fmt::Display for DecimalBytes", "fmt"),
+               ("src/format.rs", "fmt::Display for BinaryBytes", "fmt")]
